@@ -23,6 +23,8 @@ Plan gen_c03(sk::Rng& r, Tier) {
     p.knobs["min_ttl"] = mn; p.knobs["max_ttl"] = mx;
     p.knobs["cleanup"] = r.pick<std::int64_t>({1, 5, 30});
     p.knobs["jitter"] = r.chance(1, 3);
+    p.knobs["stalls"] = r.pick<std::int64_t>({0, 0, 6000, 20000});
+    p.knobs["default_ttl"] = r.pick<std::int64_t>({mn, mx, mx, (mn + mx) / 2});  // what the store falls back to when it is handed no lifetime
     const int n = static_cast<int>(r.range(4, 30));
     for (int i = 0; i < n; ++i) {
         Op op;
@@ -45,7 +47,7 @@ Plan gen_c03(sk::Rng& r, Tier) {
 
 void exec_c03(const Plan& p, Ctx& ctx) {
     en::Config c = base_config(31);
-    c.min_manifest_ttl = seconds(p.knob("min_ttl")); c.max_manifest_ttl = seconds(p.knob("max_ttl")); c.default_chunk_ttl = seconds(p.knob("min_ttl"));
+    c.min_manifest_ttl = seconds(p.knob("min_ttl")); c.max_manifest_ttl = seconds(p.knob("max_ttl")); c.default_chunk_ttl = seconds(p.knob("default_ttl", p.knob("min_ttl")));
     c.cleanup_interval = seconds(p.knob("cleanup"));
     c.announce_min_interval = seconds(1); c.announce_burst_limit = 100000; c.announce_burst_window = seconds(1);
     c.fetch_retry_initial_backoff = seconds(1); c.fetch_retry_max_backoff = seconds(5);
@@ -94,13 +96,16 @@ void exec_c03(const Plan& p, Ctx& ctx) {
         s.pending = node->pending_chunk_fetches_.count(key) != 0;
         return s;
     };
+    std::int64_t stall_slack[3] = {0, 0, 0};
     auto check_bounds = [&](const char* when) {
         const std::int64_t now = sk::now_ns();
         for (int i = 0; i < 3; ++i) {
             const Snap s = snapshot(i);
             const std::int64_t b = bound[i];
             // one second of slack: TTLs are whole seconds and the node reads the clock a little after the driver does
-            const std::int64_t slack = kSec;
+            // plus the time the importing thread of this chunk was kept off the processor inside receive_chunk (injected stalls): a
+            // lifetime granted when the import began and applied when it ended is that much later, and no more
+            const std::int64_t slack = kSec + stall_slack[i];
             auto late = [&](std::int64_t exp) { return exp >= 0 && (b == INT64_MIN || exp > b + slack); };
             const std::string about = fmt(" (chunk %d, %s; allowed until t=%.3f s, now t=%.3f s)", i, when, b == INT64_MIN ? -1.0 : b / 1e9, now / 1e9);
             if (late(s.shard_exp)) ctx.violate("C03.key_shares_outlive_manifest", fmt("cached key shares expire at t=%.3f s", s.shard_exp / 1e9) + about);
@@ -172,7 +177,12 @@ void exec_c03(const Plan& p, Ctx& ctx) {
             ctx.probe("announce_delivered");
             sk::sleep_ns(1100 * kMs);  // stay outside the announce throttle (C21's subject)
         } else if (op.k == "replica") {
+            // the importing thread may lose the processor for up to 0.3 s at any scheduling point inside the call (in a third of the runs):
+            // the lifetime it grants must not depend on how long the import took
+            if (p.knob("stalls", 0)) sk::set_deschedule(static_cast<std::uint32_t>(p.knob("stalls", 0)), 300 * kMs);
+            const std::int64_t t0 = sk::now_ns();
             const auto got = node->receive_chunk(uri, variant ? cipher2[i] : cipher[i]);
+            if (p.knob("stalls", 0)) { sk::set_deschedule(0, 0); if (sk::now_ns() > t0) { ctx.fault("import_stalled"); stall_slack[i] += sk::now_ns() - t0; } }
             ctx.probe(got ? "replica_accepted" : "replica_rejected");
             if (got && surely_rejected) ctx.violate("C03.unacceptable_manifest_replica_stored", fmt("receive_chunk accepted a replica under a manifest with %.3f s left (minimum TTL %lld s)", remaining / 1e9, (long long)mn));
         }
@@ -219,7 +229,7 @@ Scenario make_c03() {
     s.real_components = {"Node (ingest_manifest, handle_announce, receive_chunk, fetch_chunk, schedule_assigned_fetch, process_pending_fetches, tick)", "manifest_ttl / enforce_manifest_ttl", "KademliaTable, ChunkStore", "manifest codec"};
     s.stub_components = {"clocks (steady and system) simulated; announces reach the node through its handler entry point; no sockets in this world"};
     s.assumptions = {"with several manifests for one chunk the bound is the latest instant any acceptable one of them allows (min(expiry, arrival + max TTL)); key shares and copies are additionally bound by the manifests of the publisher whose key material / ciphertext they are (two publishers issue manifests for the same chunk ids)",
-                     "1 s of slack on every comparison and a 1.5 s guard band around the minimum-TTL edge: TTLs are whole seconds and the node reads the clock after the driver",
+                     "1 s of slack on every comparison and a 1.5 s guard band around the minimum-TTL edge: TTLs are whole seconds and the node reads the clock after the driver; when stalls are injected into receive_chunk (up to 0.3 s at any scheduling point, a third of the runs) the slack for that chunk grows by the measured duration of the stalls, no more",
                      "private tables are read by compiling the harness with -fno-access-control (no hook)"};
     s.rule = "plan = TTL limits, cleanup interval, clock jitter + 4..30 operations (ingest / announce / replica / fetch with one of 20 relative expiries, time advances, ticks); non-trivial = a delivered manifest is expired, at the minimum-TTL edge or beyond the maximum TTL; distinct = plan hash";
     s.gen = gen_c03; s.exec = exec_c03; s.kernel_knobs = c03_knobs;
